@@ -69,8 +69,11 @@ pub fn format_dividend(
 }
 
 /// Format a comment line
+///
+/// Line breaks inside the text are replaced by spaces so that free text from a broker
+/// export can never start a new (non-comment) line in the generated DSL.
 pub fn format_comment(text: &str) -> String {
-    format!("# {}", text)
+    format!("# {}", text.replace(['\r', '\n'], " "))
 }
 
 /// Generate header comments for a converted file
